@@ -516,6 +516,9 @@ func otherStmt(s *gen.Schema) gen.Stmt {
 	if s.ID == "s7" {
 		return gen.Stmt{Name: "other", Kind: "insert", SQL: "INSERT INTO t_s7 (id, ref_id, idx) VALUES (777, 7, 7)"}
 	}
+	if s.ID == "s8" {
+		return gen.Stmt{Name: "other", Kind: "insert", SQL: "INSERT INTO t_s8 (id, email, cnt) VALUES (777, 'other@x', 7)"}
+	}
 	return gen.Stmt{Name: "other", Kind: "insert", SQL: "INSERT INTO t_s6 (id, c_int) VALUES (777, 7)"}
 }
 
